@@ -5,7 +5,7 @@ sys.path.insert(0, os.path.dirname(os.path.dirname(os.path.abspath(__file__))))
 import coqreplay as _coqreplay
 
 PROP = {
-    "coq": ["C01", "C01r", "Findings", "C01s", "C02t", "C01t"],
+    "coq": ["C01", "C01r", "Findings", "C01s", "C02t", "C01t", "C06u"],
     "pre": [regen_src],
     "extra": [_coqreplay.replay_cc],
     "exhaustive": False,
